@@ -192,6 +192,7 @@ class FnWalk:
     def _walk_block(self, block, scope, ctx, is_fn_body=False):
         scope = Scope(scope)
         div = False
+        added = ()
         stmts = block['stmts']
         for i, st in enumerate(stmts):
             k = st['k']
@@ -213,6 +214,7 @@ class FnWalk:
                 self._ev('let', st, ictx, scope, defs=self.defs[before:], init=init)
                 if residual and not cfg:
                     ctx = ctx + residual
+                    added = added + residual
             elif k == 'Expr':
                 e = st['expr']
                 cfg = cfgs_of_attrs(e.get('attrs'))
@@ -228,11 +230,13 @@ class FnWalk:
                 div = div or d
                 if residual:
                     ctx = ctx + residual
+                    added = added + residual
             elif k == 'Item':
                 it = st['item']
                 if it['k'] == 'Fn':
                     self.nested_fns.append(it)
                 # type aliases / uses / structs inside bodies carry no behaviour
+        self._block_residual = added
         return div
 
     # -- expressions --------------------------------------------------------------------
@@ -310,7 +314,11 @@ class FnWalk:
                                 scope=scope, prior=True),)
             return (all(divs) and len(divs) > 0), residual
         if k == 'Block':
-            return self._walk_block(e, scope, ctx), ()
+            d_ = self._walk_block(e, scope, ctx)
+            # the body of an inlined helper in statement position (`let t = { ..helper.. }`): what its early exits establish
+            # ("from_path returned Some", "the attribute is a list") holds for the statements that follow, as it did after the call
+            res_ = self._block_residual if (top and e.get('inlined')) else ()
+            return d_, res_
         if k == 'Unsafe':
             self._ev('unsafe', e, ctx, scope)
             return self._walk_block(e['block'], scope, ctx), ()
